@@ -68,6 +68,11 @@ import (
 //     fourth list case and every race case) and keeps the results: each must be one of the store states
 //     the only writer produced (fingerprint membership; c11Reader), and stays retained afterwards.
 //   - the number of list-typed functions is pinned (c11PinDomain).
+//
+// Strengthening after wave 6 (c11_later.go): "later" is not only updates of the function but also reads the stack
+// serves from the same store and changes of the device tree the data talks about (c11ReadOp; read / entity steps
+// of the use case histories; the peer's use case data names entities the peer has, had or never had), and the
+// filters of an update also come in unusual forms (c11OddFilters).
 func init() {
 	nl := len(rig.DiscoverLists())
 	rig.Register(&rig.Check{
@@ -76,10 +81,12 @@ func init() {
 		Rule: "lists: case = (list function, block): histories of 6-10 updates drawn with C02's generator (all eight shapes, identifier domain 4; where the elements type of the list has struct-typed members, every second delete filter that names elements names SUB elements of one of them instead, shapes delete-elem-sub and delete-sel-elem-sub, whose effect on the data is not judged) through one of the paths remote-api (each update first tried with persist=false), " +
 			"reply/notify datagrams, local-api, remote write datagrams of a bound peer mixed with local updates; every sixth update is one the model cannot apply (selector partial filter, alone or after a delete filter aimed at existing items, with an empty list or without payload) and must leave the store unchanged if it is reported as failed; every DataCopy result (before and after each update), every data-change event payload and every value returned by UpdateData is retained with its fingerprint " +
 			"and re-fingerprinted after every later update, at the end of the history and of the case; a third of the histories is BLIND (the monitor retains only event payloads, response-callback Data and values returned by UpdateData, starts from a full data set delivered through the path under test, " +
-			"prefers in-place shapes right after a full update and reads the store for the first time at the end of the history; store clauses are not judged there); each case also drives one function without partial support through failing partial and non-persisting updates; event payloads and callback Data are fingerprinted at delivery (inside the handler); every fourth case runs a second goroutine calling DataCopy during the histories (each result must be a state the writer produced); a third of the cases end with a re-announcement, an entity removal or the removal of the connection, after which all retained values are re-checked. " +
-			"usecases: histories of 12-20 calls of AddUseCaseSupport/SetUseCaseAvailability/RemoveUseCaseSupport/RemoveAllUseCaseSupports on two entities and use-case replies of a peer, snapshots of nodeManagementUseCaseData retained. " +
+			"prefers in-place shapes right after a full update and reads the store for the first time at the end of the history; store clauses are not judged there); each case also drives one function without partial support through failing partial and non-persisting updates; event payloads and callback Data are fingerprinted at delivery (inside the handler); every fourth case runs a second goroutine calling DataCopy during the histories (each result must be a state the writer produced); a third of the cases end with a re-announcement, an entity removal or the removal of the connection, after which all retained values are re-checked; " +
+			"every sixth of the other updates carries its filters in an unusual form (delete filter naming neither selector nor elements, alone or next to the partial filter; filters without cmdControl or with both controls; an empty filter; the two filters swapped; a partial filter with elements; a delete filter with items that carry identifiers; over the wire also a selector of another function), judged by the same clauses only; " +
+			"after every third update of a non-blind history the stack serves an operation that is NOT an update of the function (read request of the peer: full, with selector, with elements, aimed at the client feature; read of the discovery data; RequestRemoteData; the peer subscribes to / unsubscribes from the local store; DataCopy of both stores) and every retained value of the history is re-fingerprinted (changed-by/read/<operation>). " +
+			"usecases: histories of 12-20 calls of AddUseCaseSupport/SetUseCaseAvailability/RemoveUseCaseSupport/RemoveAllUseCaseSupports on two entities (one of which is now and then removed and added again), use case replies/notifies of a peer that has three entities (three quarters of them name entities the peer has, had or never announced, with and without device address; the rest is random data), partial discovery notifies that remove such an entity or add it again, and read steps (DeviceRemote.UseCases, Remote/LocalFeatureDataCopyOfType, HasUseCaseSupport, the peer reading use case and discovery data); snapshots of nodeManagementUseCaseData of both sides, the lists returned by UseCases() and the event payloads are retained and re-fingerprinted after EVERY step, reads included. " +
 			"race: the same workloads with three reader goroutines encoding the retained values concurrently (race detector). " +
-			"A case is non-trivial if at least 200 fingerprint re-checks were made on at least 20 retained values and (lists) at least one non-persisting and one failed update were judged and at least two blind histories retained at least 10 values before their first read; distinct = distinct (part, function, sequence of (path, shape)).",
+			"A case is non-trivial if at least 200 fingerprint re-checks were made on at least 20 retained values and (lists) at least one non-persisting and one failed update were judged and at least two blind histories retained at least 10 values before their first read and at least 10 operations other than updates and 5 updates with unusual filters were executed; (usecases) at least 5 read steps, one of them while the peer's data named an entity the peer did not have; distinct = distinct (part, function, sequence of (path, shape)).",
 		Assumptions: []string{
 			"a fingerprint is the canonical rendering of rig.Canon (follows pointers and slices; nil and empty list identified)",
 			"'reported as failed' = UpdateData returned an error, or the peer received an error result for its reply/notify/write",
@@ -88,6 +95,8 @@ func init() {
 			"a reader goroutine only reads values obtained before; the only writer to that memory can be the stack",
 			"an update of a shape the model cannot apply is only judged if the stack reports it as failed (what must fail is not part of the statement)",
 			"the concurrent DataCopy reader is judged on fingerprints only: its result must equal a store state the history goroutine (the only writer) read after one of its updates; it is parked during blind histories",
+			"an operation that is not an update of the function (a read served by the stack, a subscription, a change of the peer's or the local entity tree) is 'later' in the sense of the statement: a value handed out before it must have the same fingerprint after it; what the read returns is not judged",
+			"unusual filter forms are generated for the peer (wire) and for the application's own UpdateData calls alike, except a selector of another function's type, which only the peer sends (an application passing a wrongly typed selector is outside the quantifier); what such an update does to the data is not judged, only the clauses 'not persisted / reported as failed => store unchanged' and 'values handed out earlier do not change'",
 			"86 functions of the Generic/NodeManagement features have a list-of-structs data type; 83 support partial updates and form the domain, three (directControlActivityListData, sensingListData, setpointConstraintsListData) have no UpdateList in the library and are pinned as such",
 		},
 		Parts: []rig.Part{
@@ -137,6 +146,8 @@ type c11Keeper struct {
 
 	tap *c11Tap    // core-level event handler that fingerprints data-change payloads INSIDE HandleEvent
 	rd  *c11Reader // concurrent DataCopy reader (nil: none)
+
+	subscribed bool // the peer's client feature is subscribed to the local store (c11ReadOp toggles it)
 }
 
 // c11Delivered is a value together with the fingerprint taken at the moment the stack delivered it (inside
@@ -539,7 +550,13 @@ func c11Lists(c *rig.Ctx) {
 	k.recheck(k.old, "end-of-case")
 	c11Finish(c, k, &st, string(li.Fn))
 	c.Seen("functions", string(li.Fn))
-	c.NonTrivial(k.checks >= 200 && k.kept >= 20 && st.nonPersist > 0 && (st.failed > 0 || !lw.bound) && st.blind >= 2 && k.blindKept >= 10)
+	for reason, bad := range map[string]bool{"rechecks<200": k.checks < 200, "retained<20": k.kept < 20, "no-nonpersisting-update": st.nonPersist == 0, "no-failed-update": st.failed == 0 && lw.bound,
+		"blind-histories<2": st.blind < 2, "blind-retained<10": k.blindKept < 10, "reads<10": st.reads < 10, "odd-filters<5": st.odd < 5} {
+		if bad {
+			c.Count("lists_case_trivial_because:"+reason, 1)
+		}
+	}
+	c.NonTrivial(k.checks >= 200 && k.kept >= 20 && st.nonPersist > 0 && (st.failed > 0 || !lw.bound) && st.blind >= 2 && k.blindKept >= 10 && st.reads >= 10 && st.odd >= 5)
 }
 
 // c11PinnedLists is the number of list-typed functions (data type with a list of structs, registered for the
@@ -592,6 +609,9 @@ func c11PinDomain(c *rig.Ctx, lists []rig.ListInfo) {
 type c11Stats struct {
 	nonPersist, failed, events int
 	blind                      int // blind histories
+	reads                      int // operations that are not updates of the function, executed between updates
+	odd                        int // updates with an unusual filter form
+	staleReads                 int // use cases: reads made while the peer's data named an entity the peer does not have
 	shapeSeq                   []byte
 	sample                     []string
 	blindSample                []string
@@ -604,6 +624,8 @@ func c11Finish(c *rig.Ctx, k *c11Keeper, st *c11Stats, what string) {
 	c.Count("nonpersisting_updates_judged", int64(st.nonPersist))
 	c.Count("failed_updates_judged", int64(st.failed))
 	c.Count("event_payloads_retained", int64(st.events))
+	c.Count("operations_other_than_updates_between_updates", int64(st.reads))
+	c.Count("updates_with_unusual_filter_form", int64(st.odd))
 	c.Count("blind_histories", int64(st.blind))
 	c.Count("blind_values_retained_before_first_read", int64(k.blindKept))
 	c.Count("blind_fingerprint_rechecks", int64(k.blindChecks))
@@ -727,8 +749,25 @@ func c11RunLists(c *rig.Ctx, lw *listWorld, k *c11Keeper, histories int) (st c11
 			if !failingShape {
 				c11Nest(c, li, &u)
 			}
+			// every sixth of the others: the filters of the shape in an unusual form (c11OddFilters)
+			var oddFp, oddFd *model.FilterType
+			odd := false
+			// remote-write histories: the application's own updates between the peer's writes
+			localBetween := path == "remote-write" && r.Intn(10) < 3
+			if !failingShape && r.Intn(6) == 0 {
+				wfp, wfd, _ := li.Filters(u)
+				if ofp, ofd, form, ook := c11OddFilters(r, li, &u, wfp, wfd, (path == "datagram" || path == "remote-write") && !localBetween); ook {
+					oddFp, oddFd, odd = ofp, ofd, true
+					u.Kind += "/odd:" + form
+					st.odd++
+					c.Count("odd_filter_form:"+form, 1)
+				}
+			}
 			st.shapeSeq = append(st.shapeSeq, ("," + u.Kind)...)
 			fp, fd, _ := li.Filters(u)
+			if odd {
+				fp, fd = oddFp, oddFd
+			}
 			mk := func() any {
 				if nilPayload {
 					return typedNil(li)
@@ -772,7 +811,7 @@ func c11RunLists(c *rig.Ctx, lw *listWorld, k *c11Keeper, histories int) (st c11
 			case "datagram", "remote-write":
 				cl, srcA, dstA := model.CmdClassifierTypeNotify, lw.remoteAddr, lw.localCli.Address()
 				if path == "remote-write" {
-					if r.Intn(10) < 3 { // keep the local list populated
+					if localBetween { // keep the local list populated
 						if e := lw.local.UpdateData(fn, mk(), fp, fd); e != nil {
 							failed, errText = true, e.String()
 						}
@@ -788,6 +827,8 @@ func c11RunLists(c *rig.Ctx, lw *listWorld, k *c11Keeper, histories int) (st c11
 				var e error
 				if nilPayload {
 					b, mc, e = lw.wireNoPayload(u, cl, srcA, dstA)
+				} else if odd {
+					b, mc, e = lw.wireFilters(r, u, fp, fd, false, cl, srcA, dstA)
 				} else {
 					b, _, mc, e = lw.wire(u, cl, srcA, dstA, true)
 				}
@@ -810,7 +851,12 @@ func c11RunLists(c *rig.Ctx, lw *listWorld, k *c11Keeper, histories int) (st c11
 					k.collectResponse(fmt.Sprintf("Data of the response callback for the reply of step %d", s))
 				}
 			}
-			k.hist = append(k.hist, step+" "+u.String()+map[bool]string{true: " -> FAILED " + errText, false: ""}[failed])
+			oddText := ""
+			if odd {
+				oddText = " filterPartial=" + rig.JS(fp) + " filterDelete=" + rig.JS(fd)
+				c.Count(fmt.Sprintf("odd_filter_update:%s reported_failed=%v", path, failed), 1)
+			}
+			k.hist = append(k.hist, step+" "+u.String()+oddText+map[bool]string{true: " -> FAILED " + errText, false: ""}[failed])
 			after := read()
 			if failingShape {
 				c.Count(fmt.Sprintf("unappliable_update:%s reported_failed=%v", step, failed), 1)
@@ -826,6 +872,10 @@ func c11RunLists(c *rig.Ctx, lw *listWorld, k *c11Keeper, histories int) (st c11
 			}
 			k.keep(src, after, fmt.Sprintf("after step %d", s))
 			k.recheck(k.cur, by)
+			// "later" is not only updates: every third step the stack serves a read (c11ReadOp)
+			if r.Intn(3) == 0 {
+				c11ReadOp(c, lw, k, &st)
+			}
 		}
 		if h%8 == 7 {
 			k.recheck(k.old, "later-history")
@@ -1157,7 +1207,13 @@ func c11UseCases(c *rig.Ctx) {
 	st := c11RunUseCases(c, w, k, c.Pick(6, 10))
 	k.recheck(k.old, "end-of-case")
 	c11Finish(c, k, &st, "usecases")
-	c.NonTrivial(k.checks >= 200 && k.kept >= 20)
+	c.Count("usecase_reads_while_the_peers_data_was_stale", int64(st.staleReads))
+	for reason, bad := range map[string]bool{"rechecks<200": k.checks < 200, "retained<20": k.kept < 20, "reads<5": st.reads < 5, "no-read-while-stale": st.staleReads < 1} {
+		if bad {
+			c.Count("usecases_case_trivial_because:"+reason, 1)
+		}
+	}
+	c.NonTrivial(k.checks >= 200 && k.kept >= 20 && st.reads >= 5 && st.staleReads >= 1)
 }
 
 func c11RunUseCases(c *rig.Ctx, w *rig.World, k *c11Keeper, histories int) (st c11Stats) {
@@ -1166,22 +1222,29 @@ func c11RunUseCases(c *rig.Ctx, w *rig.World, k *c11Keeper, histories int) (st c
 	ents := []*spine.EntityLocal{w.AddEntity(model.EntityTypeTypeCEM, []uint{1}, 0), w.AddEntity(model.EntityTypeTypeCEM, []uint{2}, 0)}
 	p := w.AddPeer(0)
 	p.Ctr = 100000
-	p.Announce([]rig.FS{rig.NMFS})
+	// the peer has entities its use case data can talk about; they come and go during the histories
+	p.Announce(c11PeerFeats(c11PeerEnts))
+	tree := &c11PeerTree{alive: map[string]bool{}}
+	for _, e := range c11PeerEnts {
+		tree.alive[fmt.Sprint(e)] = true
+	}
 	p.Subscribe(p.NM(), rig.LNM, model.FeatureTypeTypeNodeManagement) // so that every change is also encoded for a subscriber
 	p.Tap.Take()
 	w.Core.Take()
 	nm := w.Local.NodeManagement()
 	rnm := p.RD.FeatureByAddress(p.NM())
+	haveRemote := rnm != nil && !rig.IsNil(rnm)
 	for h := 0; h < histories; h++ {
 		k.hist = nil
 		steps := 12 + r.Intn(9)
 		for s := 0; s < steps; s++ {
-			e := ents[r.Intn(2)]
+			ei := r.Intn(2)
+			e := ents[ei]
 			actor, name := c11Actors[r.Intn(len(c11Actors))], c11Names[r.Intn(len(c11Names))]
 			k.keep("datacopy-local", nm.DataCopy(fn), fmt.Sprintf("before step %d", s))
 			op := ""
-			switch x := r.Intn(12); {
-			case x < 5:
+			switch x := r.Intn(24); {
+			case x < 6:
 				var sc []model.UseCaseScenarioSupportType
 				for i := 0; i <= r.Intn(3); i++ {
 					sc = append(sc, model.UseCaseScenarioSupportType(1+r.Intn(5)))
@@ -1189,42 +1252,104 @@ func c11RunUseCases(c *rig.Ctx, w *rig.World, k *c11Keeper, histories int) (st c
 				avail := r.Intn(2) == 0
 				e.AddUseCaseSupport(actor, name, model.SpecificationVersionType(fmt.Sprintf("1.%d.0", r.Intn(3))), "release", avail, sc)
 				op = fmt.Sprintf("AddUseCaseSupport(%v,%s,%s,%v,%v)", e.Address().Entity, actor, name, avail, sc)
-			case x < 8:
+			case x < 9:
 				avail := r.Intn(2) == 0
 				e.SetUseCaseAvailability(actor, name, avail)
 				op = fmt.Sprintf("SetUseCaseAvailability(%v,%s,%s,%v)", e.Address().Entity, actor, name, avail)
-			case x < 10:
+			case x < 11:
 				e.RemoveUseCaseSupport(actor, name)
 				op = fmt.Sprintf("RemoveUseCaseSupport(%v,%s,%s)", e.Address().Entity, actor, name)
-			case x < 11:
+			case x < 12:
 				e.RemoveAllUseCaseSupports()
 				op = fmt.Sprintf("RemoveAllUseCaseSupports(%v)", e.Address().Entity)
-			default:
-				// the peer reports its own use cases: reply or notify, retained as event payload and as remote snapshot
-				data := rig.GenVal(r, reflect.TypeOf(&model.NodeManagementUseCaseDataType{}), 0).Interface()
+			case x < 13:
+				// a local entity goes away (its use cases with it) and comes back under the same address
+				addr := []uint{uint(ei + 1)}
+				w.Local.RemoveEntity(e)
+				ents[ei] = w.AddEntity(model.EntityTypeTypeCEM, addr, 0)
+				op = fmt.Sprintf("local-entity-removed-and-added-again(%v)", addr)
+			case x < 16:
+				// the peer reports its own use cases: reply or notify, retained as event payload and as remote snapshot.
+				// Mostly data that names entities of the peer (present, removed, never announced), else random data
+				var data any
+				named := []string(nil)
+				kind := "random"
+				if r.Intn(4) > 0 {
+					data, named = c11PeerUseCases(r, p)
+					kind = "naming-entities"
+					c.Count("peer_usecase_data_naming_entities", 1)
+				} else {
+					data = rig.GenVal(r, reflect.TypeOf(&model.NodeManagementUseCaseDataType{}), 0).Interface()
+				}
 				cl := []model.CmdClassifierType{model.CmdClassifierTypeReply, model.CmdClassifierTypeNotify}[r.Intn(2)]
 				var ref *model.MsgCounterType
 				if cl == model.CmdClassifierTypeReply {
 					ref = util.Ptr(model.MsgCounterType(77))
 				}
 				p.Send(cl, p.NM(), rig.LNM, false, ref, rig.CmdFor(fn, data))
+				tree.named = named
 				st.events += k.keepEvents(w, fmt.Sprintf("use case %s of step %d", cl, s))
-				if rnm != nil && !rig.IsNil(rnm) {
+				if haveRemote {
 					k.keep("datacopy-remote", rnm.DataCopy(fn), fmt.Sprintf("after the peer's %s of step %d", cl, s))
 				}
 				if uc := p.RD.UseCases(); uc != nil {
 					k.keep("remote-usecases", uc, fmt.Sprintf("DeviceRemote.UseCases() after step %d", s))
 				}
-				op = "peer " + string(cl) + " nodeManagementUseCaseData"
+				op = fmt.Sprintf("peer %s nodeManagementUseCaseData(%s %v)", cl, kind, named)
+			case x < 19:
+				// the peer's device tree changes under the data: an entity is removed, or added (again)
+				ent := c11PeerEnts[r.Intn(len(c11PeerEnts))]
+				key := fmt.Sprint(ent)
+				if tree.alive[key] {
+					p.NotifyDiscovery(true, p.Discovery(nil, nil, [][]uint{ent}))
+					tree.alive[key] = p.RD.Entity(spine.NewAddressEntityType(ent)) != nil
+					op = fmt.Sprintf("peer-entity-removed(%v)", ent)
+					c.Count("peer_entity_removed", 1)
+				} else {
+					p.NotifyDiscovery(true, p.Discovery(c11PeerFeats([][]uint{ent})[1:], map[string]model.NetworkManagementStateChangeType{key: model.NetworkManagementStateChangeTypeAdded}, nil))
+					tree.alive[key] = p.RD.Entity(spine.NewAddressEntityType(ent)) != nil
+					op = fmt.Sprintf("peer-entity-added(%v)", ent)
+					c.Count("peer_entity_added", 1)
+				}
+				st.events += k.keepEvents(w, "event of "+op)
+			default:
+				// the application (or the peer) READS: nothing is updated, whatever is handed out is retained
+				rd := []string{"DeviceRemote.UseCases", "RemoteFeatureDataCopyOfType", "LocalFeatureDataCopyOfType", "HasUseCaseSupport", "peer-read-usecases", "peer-read-discovery", "DeviceRemote.UseCases"}[r.Intn(7)]
+				switch rd {
+				case "DeviceRemote.UseCases":
+					if uc := p.RD.UseCases(); uc != nil {
+						k.keep("remote-usecases", uc, fmt.Sprintf("DeviceRemote.UseCases() in step %d", s))
+					}
+				case "RemoteFeatureDataCopyOfType":
+					if haveRemote {
+						if v, err := spine.RemoteFeatureDataCopyOfType[*model.NodeManagementUseCaseDataType](rnm, fn); err == nil {
+							k.keep("datacopy-remote", v, fmt.Sprintf("RemoteFeatureDataCopyOfType in step %d", s))
+						}
+					}
+				case "LocalFeatureDataCopyOfType":
+					if v, err := spine.LocalFeatureDataCopyOfType[*model.NodeManagementUseCaseDataType](nm, fn); err == nil {
+						k.keep("datacopy-local", v, fmt.Sprintf("LocalFeatureDataCopyOfType in step %d", s))
+					}
+				case "HasUseCaseSupport":
+					_ = e.HasUseCaseSupport(actor, name)
+				case "peer-read-usecases":
+					p.Send(model.CmdClassifierTypeRead, p.NM(), rig.LNM, false, nil, model.CmdType{NodeManagementUseCaseData: &model.NodeManagementUseCaseDataType{}})
+				case "peer-read-discovery":
+					p.Send(model.CmdClassifierTypeRead, p.NM(), rig.LNM, false, nil, model.CmdType{NodeManagementDetailedDiscoveryData: &model.NodeManagementDetailedDiscoveryDataType{}})
+				}
+				st.reads++
+				c.Count("read_op:"+rd, 1)
+				if tree.stale() {
+					st.staleReads++
+					c.Count("read_ops_while_the_peers_data_names_an_entity_it_does_not_have", 1)
+				}
+				op = "read:" + rd + " "
 			}
-			st.shapeSeq = append(st.shapeSeq, ("," + op[:strings.IndexAny(op+"(", "( ")+1])...)
+			i := strings.IndexAny(op+"(", "( ")
+			st.shapeSeq = append(st.shapeSeq, ("," + op[:i])...)
 			k.hist = append(k.hist, op)
 			k.keep("datacopy-local", nm.DataCopy(fn), fmt.Sprintf("after step %d", s))
-			by := op
-			if i := strings.IndexAny(op, "( "); i > 0 {
-				by = op[:i]
-			}
-			k.recheck(k.cur, "usecase/"+by)
+			k.recheck(k.cur, "usecase/"+op[:i])
 			p.Tap.Take()
 		}
 		if len(st.sample) == 0 {
@@ -1353,5 +1478,10 @@ func c11Race(c *rig.Ctx) {
 	c.Count("values_encoded_by_readers", encoded.Load())
 	c.Seen("race_subjects", what)
 	c11Finish(c, k, &st, "race:"+what)
+	for reason, bad := range map[string]bool{"rechecks<200": k.checks < 200, "retained<20": k.kept < 20, "encoded<200": encoded.Load() < 200} {
+		if bad {
+			c.Count("race_case_trivial_because:"+reason, 1)
+		}
+	}
 	c.NonTrivial(k.checks >= 200 && k.kept >= 20 && encoded.Load() >= 200)
 }
